@@ -639,4 +639,110 @@ inline void objAnam(Rng& r, Ctx& c)
     (void)a->fitFromArray(t); }});
   runKit(r, c, k);
 }
+
+// ------------------------------------------------------------------------------------------------ copies taken inside the optimisation window
+// A Model / ACovAnisoList / CovAniso copied while its source is between optimizationPreProcess(db) and
+// optimizationPostProcess() (both public; this is the state of the covariance during any optimised request or kriging).
+// The copy has never been pre-processed itself: whatever projection cache the source carries, the copy must answer
+// every covariance-matrix request like an object built from scratch with the same parameters, also after the source
+// has been post-processed or destroyed. The same experiment is run with the source outside the window (control).
+// Answers only: the cache state of the copy is not looked at.
+inline std::string acovAnswers(ACov* a, Db* dA, Db* dB, bool withOptimList)
+{
+  return digOf([&](Dig& g) {
+    digMat(g, a->evalCovMatrixSymmetric(dB, -1, VectorInt(), nullptr));
+    digMat(g, a->evalCovMatrix(dA, dB));
+    ACovAnisoList* l = withOptimList ? dynamic_cast<ACovAnisoList*>(a) : nullptr;
+    if (l != nullptr)
+    {
+      digMat(g, l->evalCovMatrixSymmetricOptim(dB));
+      digMat(g, l->evalCovMatrixOptim(dB, dA));
+      digMat(g, a->evalCovMatrixSymmetric(dA, -1, VectorInt(), nullptr));
+    }
+  });
+}
+inline void objOptimWindow(Rng& r, Ctx& c)
+{
+  int cls = r.irange(0, 2);  // 0 Model, 1 ACovAnisoList, 2 CovAniso
+  int how = r.irange(0, 3);  // 0 copy-ctor, 1 clone, 2 assign (onto an object with other content), 3 assign onto an empty list (lists only)
+  if (how == 3 && cls != 1) how = 2;
+  bool inWindow    = r.coin(0.75);
+  bool killSource  = r.coin();
+  uint64_t sub     = r.next(), sub2 = r.next();
+  static const char* CN[] = {"Model", "ACovAnisoList", "CovAniso"};
+  static const char* HN[] = {"copy-ctor", "clone", "assign", "assign-onto-empty"};
+  c.setSig(std::string("obj:window:") + CN[cls] + ":" + HN[how] + (inWindow ? ":inside" : ":outside"));
+  std::string key = std::string("C10:copy:") + CN[cls] + ":" + HN[how] + (inWindow ? ":taken-inside-optimization-window" : ":taken-outside-optimization-window");
+  // ACovAnisoList::operator= appends the source's structures to those the target already has (known open finding):
+  // one key for that cause, inside or outside the window; the window itself is judged on the empty-target variant
+  if (cls == 1 && how == 2) key = "C10:copy:ACovAnisoList:assign:appends-to-existing-structures";
+
+  c10::Child ch = c10::run_child([&]() -> std::string {
+    auto build = [](uint64_t sd) {
+      Rng q(sd);
+      ModelSpec s;
+      s.nugget = false;
+      s.ncov   = q.irange(1, 2);
+      s.rscale = 25.; // ranges far from 1: a raw distance taken for a reduced one gives a covariance close to 0
+      return mkModel(q, s);
+    };
+    Rng q(sub ^ 0x5555);
+    DbSpec ds;
+    ds.n   = q.irange(5, 10);
+    UDb dA = mkDb(q, ds);
+    ds.n   = q.irange(4, 9);
+    UDb dB = mkDb(q, ds);
+    UModel A = build(sub), T = build(sub), O = build(sub2); // source, never-copied twin, another content (assignment target)
+    // reference answers: an object built from scratch
+    std::string want;
+    if (cls == 0) want = digOf([&](Dig& g) { digMat(g, T->evalCovMatrixSymmetric(dB.get())); digMat(g, T->evalCovMatrix(dA.get(), dB.get())); digMat(g, T->evalCovMatrixSymmetricOptim(dB.get())); digMat(g, T->evalCovMatrixOptim(dB.get(), dA.get())); });
+    else if (cls == 1) want = acovAnswers(T->getCovAnisoListModify(), dA.get(), dB.get(), true);
+    else want = acovAnswers(T->getCova(0), dA.get(), dB.get(), false);
+
+    if (inWindow) A->getCovAnisoList()->optimizationPreProcess(dA.get());
+    std::unique_ptr<Model> cm;
+    std::unique_ptr<ACovAnisoList> cl;
+    std::unique_ptr<CovAniso> cc;
+    ACov* target = nullptr; // object asked (for lists / covariances)
+    if (cls == 0)
+    {
+      if (how == 0) cm.reset(new Model(*A));
+      else if (how == 1) cm.reset(A->clone());
+      else { cm = std::move(O); *cm = *A; }
+    }
+    else if (cls == 1)
+    {
+      const ACovAnisoList* src = A->getCovAnisoList();
+      if (how == 0) cl.reset(new ACovAnisoList(*src));
+      else if (how == 1) cl.reset(src->clone());
+      else if (how == 2) { cl.reset(new ACovAnisoList(*O->getCovAnisoList())); *cl = *src; }
+      else { cl.reset(new ACovAnisoList(src->getSpace())); *cl = *src; }
+      target = cl.get();
+    }
+    else
+    {
+      const CovAniso* src = A->getCova(0);
+      if (how == 0) cc.reset(new CovAniso(*src));
+      else if (how == 1) cc.reset(src->clone());
+      else { cc.reset(new CovAniso(*O->getCova(0))); *cc = *src; }
+      target = cc.get();
+    }
+    if (inWindow) A->getCovAnisoList()->optimizationPostProcess();
+    if (killSource) A.reset();
+    std::string got;
+    if (cls == 0) got = digOf([&](Dig& g) { digMat(g, cm->evalCovMatrixSymmetric(dB.get())); digMat(g, cm->evalCovMatrix(dA.get(), dB.get())); digMat(g, cm->evalCovMatrixSymmetricOptim(dB.get())); digMat(g, cm->evalCovMatrixOptim(dB.get(), dA.get())); });
+    else got = acovAnswers(target, dA.get(), dB.get(), cls == 1);
+    std::string res = (got == want) ? "OK" : "DIFFERENT";
+    // the source, once post-processed, answers as the twin too
+    if (A && cls == 0)
+    {
+      std::string sa = digOf([&](Dig& g) { digMat(g, A->evalCovMatrixSymmetric(dB.get())); digMat(g, A->evalCovMatrix(dA.get(), dB.get())); digMat(g, A->evalCovMatrixSymmetricOptim(dB.get())); digMat(g, A->evalCovMatrixOptim(dB.get(), dA.get())); });
+      if (sa != want) res += "+SOURCE";
+    }
+    return res;
+  });
+  bool okc = ch.ok && ch.data.find("DIFFERENT") == std::string::npos;
+  c.truth("copy-window", key, okc, std::string(killSource ? "source destroyed before asking; " : "") + (ch.ok ? ch.data : ch.why()));
+  if (ch.ok) c.truth("copy-window-source", std::string("C10:copy:") + CN[cls] + ":source-differs-after-optimization-window", ch.data.find("SOURCE") == std::string::npos, ch.data);
+}
 } // namespace c10o
